@@ -44,6 +44,9 @@ def main():
         env = {"PYTHONPATH": wt, "NUMBA_NUM_THREADS": "4"}
         import shutil
         demo_path = shutil.copy(demo_path, os.path.join(wt, "_seed_demo.py"))  # some demos locate the repo by their own path
+        for extra in os.listdir(os.path.join(ROOT, sd)):  # helper packages a demo brings along (e.g. an exafmm stand-in)
+            if extra.startswith("_") and os.path.isdir(os.path.join(ROOT, sd, extra)):
+                shutil.copytree(os.path.join(ROOT, sd, extra), os.path.join(wt, extra), dirs_exist_ok=True)
         rc0, out0 = sh(["/venv/bin/python", demo_path], cwd=wt, env=env, timeout=7200)
         ran.append(f"demo on clean tree: exit {rc0}")
         rca, outa = sh(["git", "-C", wt, "apply", patch])
